@@ -17,7 +17,10 @@ WORDS = ['alpha', 'beta', 'gamma', 'delta', 'omega', 'kappa', 'sigma', 'lambda',
 # index keys: every group of the index (letters, digits/symbols, underscore), display forms (key@display),
 # page formats (|textbf) and cross references (|see{..})
 INDEXKEYS = WORDS + ['Alpha', 'Omega', '2nd', '42', '\\_\\_init\\_\\_', '\\_private', '\\#hash', '\\$var',
-                     'zeta@\\textbf{zeta}', 'beta|textbf', 'gamma|see{alpha}', '\\_under@\\texttt{\\_under}']
+                     'zeta@\\textbf{zeta}', 'beta|textbf', 'gamma|see{alpha}', '\\_under@\\texttt{\\_under}',
+                     # letters outside ASCII, next to plain keys with the same base letter (they share an index group)
+                     'Eccles cake', '\u00c9clair', '\u00e9mile', 'Apfel', '\u00c4rger', '\u00e4hnlich', 'Ufer', '\u00fcber',
+                     '\u00d1and\u00fa', 'nadir', '\u00d8rsted', 'omega@\u03a9mega', '\u03a9']
 # labels that differ only in characters that are not allowed in file names, or that equal names the
 # filename template hands out by itself
 SEPS = [':', '.', '-', ';']
@@ -160,15 +163,21 @@ class DocGen:
                 if k == 'text':
                     out.append('Some %s text.' % rng.choice(WORDS))
                 elif k == 'foot':
-                    out.append('Word\\footnote{note %s} more.' % rng.choice(WORDS))
+                    out.append(('Word\\footnote{note %s} more.' if rng.random() < 0.75 else '\\footnote{note %s}') % rng.choice(WORDS))
                 elif k == 'index':
                     key = it[1]
                     if it[2] is not None:      # sub-entry: goes before a page format / see
                         head, bar, fmt = key.partition('|')
                         key = head + '!' + it[2] + bar + fmt
-                    out.append('term\\index{%s}' % key)
+                    shape = rng.random()
+                    if shape < 0.55:
+                        out.append('term\\index{%s}' % key)                       # inside running text
+                    elif shape < 0.85:
+                        out.append('\\index{%s}' % key)                           # the sole content of its paragraph
+                    else:                                                         # several entries and nothing else
+                        out.append('\\index{%s}\n\\index{%s}' % (key, rng.choice(WORDS)))
                 elif k == 'cite':
-                    out.append('see \\cite{%s}.' % it[1])
+                    out.append(('see \\cite{%s}.' if rng.random() < 0.75 else '\\cite{%s}') % it[1])
                 elif k == 'eq':
                     out.append('\\begin{equation}\\label{%s} x=%d \\end{equation}' % (it[1], rng.randint(1, 9)))
                 elif k == 'fig':
